@@ -1045,4 +1045,8 @@ CASES = [
     {
       logger_base = LoggerManager::instance().get_valid_logger(excluded_logger_name_substr);
     }""")]),
+
+ dict(name="c04-set-comparator-lost", ids=["C04"], rule="C04.R7a", subs=[("std/Set.h", "typename std::conditional<std::is_same<Compare, std::less<Key>>::value, std::less<ReturnType>, Compare>::type;", "typename std::conditional<std::is_same<ReturnType, Key>::value, Compare, std::less<ReturnType>>::type;")]),
+ dict(name="c04-hex-escape-unmasked", ids=["C04"], rule="C04.R8a", subs=[(BW, "          formatted_msg.append(std::string{hex[(c >> 4) & 0xF]});", "          formatted_msg.append(std::string{hex[c >> 4]});")]),
+ dict(name="c04-vector-decoded-reversed", ids=["C04"], rule="C04.R7b", subs=[("std/List.h", "arg.emplace_back(Codec<T>::decode_arg(buffer));", "arg.emplace_front(Codec<T>::decode_arg(buffer));")]),
 ]
